@@ -26,6 +26,9 @@ type c12Case struct {
 	Message   string `json:"message"`
 	// where the identity is configured: bit 0 = name global, bit 1 = e-mail global
 	Scope int `json:"scope"`
+	// UTC offsets (minutes) of earlier commits of the same repository, oldest first: one `log` process then reads
+	// commits made under different offsets, and each must be shown with its own
+	Earlier []int `json:"earlier,omitempty"`
 }
 
 func runC12(c *c12Case) error {
@@ -44,6 +47,17 @@ func runC12(c *c12Case) error {
 			return fmt.Errorf("harness: %s", r)
 		}
 	}
+	for k, off := range c.Earlier {
+		b.TZMin = off
+		b.WriteFile("f", []byte(fmt.Sprintf("earlier %d\n", k)))
+		if r := b.Run("add", "f"); !r.OK() {
+			return fmt.Errorf("harness: %s", r)
+		}
+		if r := b.Run("commit", "-m", fmt.Sprintf("earlier %d", k)); !r.OK() {
+			return fmt.Errorf("commit failed under UTC offset %s: %s", tz.Format(off), r)
+		}
+	}
+	b.TZMin = c.OffsetMin
 	b.WriteFile("f", []byte("x\n"))
 	if r := b.Run("add", "f"); !r.OK() {
 		return fmt.Errorf("harness: %s", r)
@@ -104,6 +118,39 @@ func runC12(c *c12Case) error {
 	if got, err := parseLogDate(f[0], f[1], f[2]); err != nil || got != cm.Author.Secs {
 		return fmt.Errorf("log shows date %q = instant %d (%v), stored instant %d", bl.Date, got, err, cm.Author.Secs)
 	}
+	if len(c.Earlier) > 0 {
+		// the whole history in one process: every commit with its own offset and instant
+		rl := b.Run("log", "-n", strconv.Itoa(len(c.Earlier)+1))
+		if !rl.OK() {
+			return fmt.Errorf("log -n %d failed: %s", len(c.Earlier)+1, rl)
+		}
+		blocks, err := ParseLog(rl.Stdout)
+		if err != nil || len(blocks) != len(c.Earlier)+1 {
+			return fmt.Errorf("log -n %d printed %d commits (%v):\n%s", len(c.Earlier)+1, len(blocks), err, rl.Stdout)
+		}
+		offs := append(append([]int{}, c.Earlier...), c.OffsetMin)
+		cur := id
+		for k, bl := range blocks {
+			want := offs[len(offs)-1-k]
+			cmk, err := gitfmt.ReadCommit(o.Store, cur)
+			if err != nil {
+				return fmt.Errorf("commit %s not readable: %v", cur, err)
+			}
+			if cmk.Author.Offset != tz.Format(want) {
+				return fmt.Errorf("commit %d from the top was made at %s and stores %q", k, tz.Format(want), cmk.Author.Raw)
+			}
+			f := strings.Fields(bl.Date)
+			if bl.ID != cur || len(f) < 3 || f[2] != tz.Format(want) {
+				return fmt.Errorf("log -n %d shows commit %d from the top (%s, stored at offset %s) as %s with date %q (offsets of the history, oldest first: %v)", len(offs), k, cur[:8], tz.Format(want), bl.ID[:8], bl.Date, offs)
+			}
+			if got, err := parseLogDate(f[0], f[1], f[2]); err != nil || got != cmk.Author.Secs {
+				return fmt.Errorf("log shows date %q = instant %d (%v) for commit %s, stored instant %d", bl.Date, got, err, cur[:8], cmk.Author.Secs)
+			}
+			if len(cmk.Parents) > 0 {
+				cur = cmk.Parents[0]
+			}
+		}
+	}
 	return nil
 }
 
@@ -142,7 +189,24 @@ func TestC12CLI(t *testing.T) {
 			off = offsets[rapid.IntRange(0, len(offsets)-1).Draw(rt, "offset")]
 		}
 		c := &c12Case{OffsetMin: off, Name: g.UserName(), Email: g.Email(), Message: g.Message(true), Scope: g.Int(0, 3, "identityScope")}
+		if g.Chance(50, "history") {
+			n := g.Int(1, 3, "earlier")
+			for k := 0; k < n; k++ {
+				e := offsets[g.Int(0, len(offsets)-1, "earlierOffset")]
+				switch g.Int(0, 3, "relation") {
+				case 0: // the same hour, other minutes
+					e = off + g.Pick2([]int{-45, -30, -15, 15, 30, 45}, "delta")
+				case 1: // the other side of UTC
+					e = -off
+				}
+				if e < offsets[0] || e > offsets[len(offsets)-1] {
+					e = off
+				}
+				c.Earlier = append(c.Earlier, e)
+			}
+		}
 		stats.Eval()
+		stats.LabelIf(len(c.Earlier) > 0, "history:several-offsets-in-one-log")
 		stats.LabelIf(off < 0, "offset:negative")
 		stats.LabelIf(off%60 != 0, "offset:fractional-hour")
 		stats.LabelIf(strings.Contains(c.Message, "\n"), "message:multi-line")
